@@ -60,7 +60,7 @@ def run(tier):
     res = common.Result()
     res.assumptions = list(_e2.ASSUME)
     cfgs = configs(tier)
-    _e2.run_matrix('C06', 'oracle_values', [(c, 'P', None) for c in cfgs], res, 'mode P, all schedules')
+    _e2.run_matrix('C06', 'oracle_values', [(c, 'D', None) for c in cfgs], res, 'mode D (DPOR + sleep sets), all schedules')
     lcfgs = [c for c in cfgs if c.get('backend', 't') == 't' and len(c.get('fail_fn') or {}) == 1
              and c.get('catch') is None and not c.get('fail_src')
              and next(iter(c['fail_fn'].values())) == 'ValueError'
